@@ -7,6 +7,7 @@ mod c08;
 mod c10;
 mod c11;
 mod c13q;
+mod c17r;
 mod sim;
 
 fn main() {
@@ -19,6 +20,7 @@ fn main() {
         "C10" => c10::run(cfg),
         "C11" => c11::run(cfg),
         "C13" => c13q::run(cfg),
+        "C17" => c17r::run(cfg),
         other => {
             eprintln!("vh-store: unknown property {other}");
             std::process::exit(2);
